@@ -175,7 +175,11 @@ pub fn evaluate_module(property: &str, rc: &RealCase, obs: &std::collections::Ha
     }
     if let Some((w, m)) = hang {
         if property == "C01" {
-            acc.finding(Finding::new("real_case", case_with_word(rc, w, *m), format!("the real parse does not terminate on {w:?} (no return within 300 s, or it exhausted a 3 GiB address space)"), json!("termination"), json!("no return within 300 s / memory exhausted")));
+            let mut f = Finding::new("real_case", case_with_word(rc, w, *m), format!("the real parse does not terminate on {w:?} (no return within 300 s, or it exhausted a 3 GiB address space)"), json!("termination"), json!("no return within 300 s / memory exhausted"));
+            if has_derivation_cycle(&case.g) {
+                f = f.with_class(crate::pda::CLASS_CYCLE_LOOP);
+            }
+            acc.finding(f);
         }
         acc.inc("modules whose real parse hangs or exhausts memory");
         return;
@@ -224,7 +228,15 @@ pub fn evaluate_module(property: &str, rc: &RealCase, obs: &std::collections::Ha
             (ParseResult::Reject(Some(i)), Err(j)) if rf.all_productive && *i != j => acc.self_check_errors.push(format!("reference self-check: LR(1) error index {i} vs Earley {j} on {w:?}")),
             (ParseResult::Reject(None), Err(_)) if rf.all_productive => acc.self_check_errors.push(format!("reference self-check: LR(1) says end of input, Earley says not viable on {w:?}")),
             (ParseResult::Reject(Some(_)), Ok(_)) if rf.all_productive => acc.self_check_errors.push(format!("reference self-check: LR(1) rejects a viable prefix {w:?}")),
-            (ParseResult::Diverged, _) => acc.self_check_errors.push("reference self-check: reference driver diverged".to_string()),
+            (ParseResult::Diverged, _) => {
+                // canonical tables of a cyclic grammar can loop (C01's finding); there is no reference outcome for this word
+                if has_derivation_cycle(&case.g) {
+                    acc.inc("words on which the reference driver itself loops (derivation cycle)");
+                } else {
+                    acc.self_check_errors.push("reference self-check: reference driver diverged on an acyclic grammar".to_string());
+                }
+                continue;
+            }
             _ => {}
         }
         let lookup = |mode: u8| -> Option<Obs> {
